@@ -14,10 +14,10 @@ import Mathlib.Algebra.Order.Field.Rat
 * `idrs_terminates_partial` — **finite termination, proved for `s = 1`**: at most `n` complete passes exist, after `n`
   complete passes (`2n = n + n/s` matrix–vector products) the residual is exactly zero, and every call returns `it ≤ 2n`.
 
-FULL statement (not proved for `s ≥ 2`): IDR(s) without breakdown terminates within `n + n/s` matrix–vector products in the
-generic case (`dim G_j` drops by `s` per cycle of `s + 1` products) and within `n(s+1)/1`… in every case; what is missing for
-`s ≥ 2` is the bookkeeping of the bi-orthogonalisation (`M(i,k) = ⟨G[k],P[i]⟩` lower triangular, `f`, the triangular solve
-`solveC`) that shows `v ⟂ P[0..s)` in every `k`-step; and the variant with residual smoothing.
+FULL statement (not proved for `s ≥ 2`): IDR(s) without breakdown terminates within `n + n/s` matrix–vector products (every
+`k`-step of a cycle lowers the dimension of the space that contains the residual by one, the `ω` step does not raise it).
+What is missing for `s ≥ 2` is the bookkeeping of the bi-orthogonalisation (`M(i,k) = ⟨G[k],P[i]⟩` lower triangular, `f`, the
+triangular solve `solveC`) that shows `v ⟂ P[0..s)` in every `k`-step; and the variant with residual smoothing.
 -/
 namespace Amgcl.C05d
 open Amgcl Amgcl.Solver Amgcl.Krylov Amgcl.Energy.Bridge Matrix
